@@ -153,9 +153,11 @@ func (tds *Conn) Close() error {
 
 	var tdsChannels []*Channel
 	// tdsChannels := make([]*Channel, len(tds.tdsChannels))
+	tds.tdsChannelsLock.RLock()
 	for _, channel := range tds.tdsChannels {
 		tdsChannels = append(tdsChannels, channel)
 	}
+	tds.tdsChannelsLock.RUnlock()
 
 	for _, channel := range tdsChannels {
 		if err := channel.Close(); err != nil {
@@ -219,7 +221,11 @@ func (tds *Conn) ReadFrom() {
 		packet := &Packet{}
 		_, err := packet.ReadFrom(tds.ctx, tds.conn, time.Duration(tds.info.PacketReadTimeout)*time.Second)
 		if err != nil && !errors.Is(err, io.EOF) {
-			tds.errCh <- fmt.Errorf("error reading packet: %w", err)
+			select {
+			case tds.errCh <- fmt.Errorf("error reading packet: %w", err):
+			case <-tds.ctx.Done():
+				return
+			}
 			continue
 		}
 
@@ -227,7 +233,11 @@ func (tds *Conn) ReadFrom() {
 		tdsChan, ok := tds.tdsChannels[int(packet.Header.Channel)]
 		tds.tdsChannelsLock.RUnlock()
 		if !ok {
-			tds.errCh <- fmt.Errorf("received packet for invalid channel %d", packet.Header.Channel)
+			select {
+			case tds.errCh <- fmt.Errorf("received packet for invalid channel %d", packet.Header.Channel):
+			case <-tds.ctx.Done():
+				return
+			}
 			continue
 		}
 
